@@ -506,6 +506,9 @@ pub fn run_case(
 	let mut ok = true;
 	let mut stats_stages: std::collections::BTreeSet<&'static str> = Default::default();
 	let mut crash_count = 0;
+	// keys written by the most recent accepted transactions: read again after EVERY pipeline step
+	// (a read must return the latest write whatever stage the transactions are in)
+	let mut recent: Vec<(u8, Vec<u8>)> = vec![];
 
 	for _step in 0..nact {
 		let a = rng.below(100);
@@ -548,6 +551,15 @@ pub fn run_case(
 			if r.is_ok() {
 				oracle.apply(&cfg, &tx, &mut vals);
 				prefix_states.push(oracle.clone());
+				for (c, op) in &tx {
+					let e = (*c, op.key().to_vec());
+					recent.retain(|x| *x != e);
+					recent.push(e);
+				}
+				let n = recent.len();
+				if n > 6 {
+					recent.drain(0..n - 6);
+				}
 			}
 			// read back the touched keys immediately
 			for (c, op) in &tx {
@@ -557,10 +569,18 @@ pub fn run_case(
 			let r = sut.process();
 			t.op("p1 process", &res(&r));
 			ctr.inc("op.process");
+			for (c, k) in recent.clone() {
+				ok &= check_get(&sut, &oracle, &cfg, c, &k, t, &vals, prop, ctr);
+				ctr.inc("op.get.after_step");
+			}
 		} else if a < 65 {
 			let r = sut.flush();
 			t.op("p1 flush", &res(&r));
 			ctr.inc("op.flush");
+			for (c, k) in recent.clone() {
+				ok &= check_get(&sut, &oracle, &cfg, c, &k, t, &vals, prop, ctr);
+				ctr.inc("op.get.after_step");
+			}
 		} else if a < 71 {
 			let r = sut.enact_file();
 			match r {
@@ -573,18 +593,34 @@ pub fn run_case(
 				Err(e) => t.op("p1 enact", &format!("err:{}", err_kind(&e))),
 			}
 			ctr.inc("op.enactfile");
+			for (c, k) in recent.clone() {
+				ok &= check_get(&sut, &oracle, &cfg, c, &k, t, &vals, prop, ctr);
+				ctr.inc("op.get.after_step");
+			}
 		} else if a < 78 {
 			let r = sut.enact_all();
 			t.op("p1 enactall", &res(&r));
 			ctr.inc("op.enactall");
+			for (c, k) in recent.clone() {
+				ok &= check_get(&sut, &oracle, &cfg, c, &k, t, &vals, prop, ctr);
+				ctr.inc("op.get.after_step");
+			}
 		} else if a < 82 {
 			let r = sut.clean();
 			t.op("p1 clean", &res(&r));
 			ctr.inc("op.clean");
+			for (c, k) in recent.clone() {
+				ok &= check_get(&sut, &oracle, &cfg, c, &k, t, &vals, prop, ctr);
+				ctr.inc("op.get.after_step");
+			}
 		} else if a < 85 {
 			let r = sut.reindex();
 			t.op("p1 reindex", &res(&r));
 			ctr.inc("op.reindex");
+			for (c, k) in recent.clone() {
+				ok &= check_get(&sut, &oracle, &cfg, c, &k, t, &vals, prop, ctr);
+				ctr.inc("op.get.after_step");
+			}
 		} else if a < 90 && p.allow_reopen {
 			let r = sut.reopen();
 			t.op("p1 reopen", &res(&r));
